@@ -6,6 +6,7 @@ From Qryn Require Import model.Quote model.ChLex model.Like model.SqlSites model
 From Qryn Require Import proofs.QuoteProofs proofs.ChLexProofs proofs.LikeProofs proofs.SqlSitesProofs proofs.SqlTemplateProofs
   proofs.SqlPiecesProofs.
 From Qryn Require model.TqSql model.TqPieces proofs.TqPiecesProofs.   (* qualified: TqSql re-uses the names of Sql *)
+From Qryn Require Import model.WSites gen.GenC10WSites proofs.WSitesProofs.
 Import ListNotations.
 Open Scope string_scope.
 
@@ -239,3 +240,33 @@ Example traceql_tree_example :
              (Some (TqSql.LOp TqSql.OGt [TqSql.AttrValue "zqxmark"; TqSql.FloatV "5"])) [TqSql.Id "trace_id"] [] (Some (TqSql.IntV 20)) in
   pok QN (TqPieces.tq_pieces q) = true /\ List.length (rvalues (TqPieces.tq_pieces q)) = 4%nat.
 Proof. vm_compute. split; reflexivity. Qed.
+
+(* ---- THE WRITE SIDE: every statement that writer/ and ctrl/ hand to ClickHouse (Exec / Query / QueryRow / PrepareBatch / Select
+   ... of clickhouse-go, database/sql and the repository's client wrappers, and the bodies of ch-go queries), regenerated from
+   the source with the provenance of every part of the statement text (translate/gen_wsqlsites, go/types).  No part is of
+   unknown provenance (a request-derived value has no rule): each is constant text, an embedded SQL script, a field of a
+   configuration struct, a number, or a parameter of the enclosing function - and then every call site of that function in the
+   module is in the list again, classified the same way (or the function is a reviewed entry point without a caller).
+   A future fmt.Sprintf("... %s", userValue) on the write side makes this theorem fail, naming the site. *)
+Theorem writer_entry_points_are_reviewed : gen_writer_entry = reviewed_writer_entry.
+Proof. reflexivity. Qed.
+Print Assumptions writer_entry_points_are_reviewed.
+
+Theorem no_request_string_reaches_a_writer_statement : wsites_ok gen_writer_sites gen_writer_entry = true.
+Proof. vm_compute. reflexivity. Qed.
+Print Assumptions no_request_string_reaches_a_writer_statement.
+
+(* what the computed judgement says, for any census *)
+Theorem writer_census_meaning : forall sites entry, wsites_ok sites entry = true ->
+  sites <> [] /\
+  forall s, In s sites -> forall c d, In (c, d) (ws_pieces s) ->
+    c <> WUnclassified /\
+    (c = WPass -> (exists k, In k sites /\ ws_call k = true /\ ws_sink k = d) \/ In d entry).
+Proof. exact wsites_ok_meaning. Qed.
+Print Assumptions writer_census_meaning.
+
+Example writer_census_example :
+  wsites_ok [ {| ws_file := "a.go"; ws_line := 1%Z; ws_call := false; ws_sink := "Exec"; ws_pieces := [(WConst, ""); (WPass, "parameter t of f")] |};
+              {| ws_file := "b.go"; ws_line := 2%Z; ws_call := true; ws_sink := "parameter t of f"; ws_pieces := [(WConfig, "")] |} ] [] = true
+  /\ wsites_ok [ {| ws_file := "a.go"; ws_line := 1%Z; ws_call := false; ws_sink := "Exec"; ws_pieces := [(WUnclassified, "req.URL.Query().Get(x)")] |} ] [] = false.
+Proof. split; reflexivity. Qed.
